@@ -46,9 +46,9 @@ ASSUMPTIONS = [
     "dict settings are generated with sorted keys (jsonnet re-renders objects sorted); sets only of int or str",
     "the text '--' is not used as a value (argparse removes it) and bare NoneType is not used as a type hint",
 ]
-FINDING_CLASSES = {1: "none-unchecked", 2: "clash-key-unadapted", 3: "literal-eq-channels", 4: "jsonnet-numbers"}
+FINDING_CLASSES = {1: "none-unchecked", 3: "literal-eq-channels", 4: "jsonnet-numbers"}   # 2 (clash-key-unadapted) repaired
 # When fixes/C05-clash-key-unadapted.patch is applied in /repo:  JUDGE = "judge_fixed"  and drop class 2 above.
-JUDGE = "judge"
+JUDGE = "judge_fixed"   # /repo 0aaec05 (clash-key-unadapted repaired)
 
 
 # ---------------------------------------------------------------------------------------------------------------------
